@@ -264,7 +264,10 @@ class FieldMappingTransformationBase(DetectionItemTransformation):
                 if isinstance(fieldref, list):
                     mapped_fields = []
                     for field in fieldref:
-                        mapped_field = self._apply_field_name(field)
+                        # an alias is the name of the normalised field, not of a field of the events
+                        mapped_field = (
+                            [field] if field in aliases else self._apply_field_name(field)
+                        )
                         if len(mapped_field) > 1:
                             raise SigmaConfigurationError(
                                 "Field name mapping transformation can't be applied to correlation rule condition field reference because it results in multiple field names."
@@ -272,7 +275,9 @@ class FieldMappingTransformationBase(DetectionItemTransformation):
                         mapped_fields.append(mapped_field[0])
                     rule.condition.fieldref = mapped_fields
                 else:
-                    mapped_field = self._apply_field_name(fieldref)
+                    mapped_field = (
+                        [fieldref] if fieldref in aliases else self._apply_field_name(fieldref)
+                    )
                     if len(mapped_field) > 1:
                         raise SigmaConfigurationError(
                             "Field name mapping transformation can't be applied to correlation rule condition field reference because it results in multiple field names."
